@@ -4,7 +4,6 @@
 package pl
 
 import (
-	"sync/atomic"
 	"bufio"
 	"encoding/json"
 	"fmt"
@@ -17,6 +16,7 @@ import (
 	"os"
 	"strings"
 	"sync"
+	"sync/atomic"
 	"time"
 
 	"github.com/buzzfeed/sso/internal/pkg/sessions"
@@ -63,6 +63,9 @@ type Line struct {
 	CbSession bool        `json:"cbsession"`
 	CbEq      bool        `json:"cbeq"`
 	CbLoc     string      `json:"cbloc"`
+	// cbpair lines: sessions set by the two concurrent callbacks, and successful redemptions the authenticator served
+	Sessions int `json:"sessions"`
+	Redeems  int `json:"redeems"`
 	Conc      interface{} `json:"conc,omitempty"`
 }
 
@@ -93,6 +96,13 @@ func NewWorld() (*World, error) {
 			fmt.Fprintf(&y, "      allowed_groups:\n        - eng\n")
 		}
 	}
+	// a rewrite route: ONE upstream (one policy, one provider client) serving many hosts
+	rb := world.NewBackend("rw")
+	w.Back["rw"] = rb
+	fmt.Fprintf(&y, "- service: tenants\n  default:\n    from: '^([a-z0-9-]+)\\.rw\\.sso\\.test$'\n    to: %s\n    type: rewrite\n    options:\n      allowed_email_domains:\n        - allowed.test\n", rb.Addr())
+	if w.Both {
+		fmt.Fprintf(&y, "      allowed_groups:\n        - eng\n")
+	}
 	p, err := world.NewProxy(world.ProxyOpts{UpstreamYAML: y.String(), ProviderURL: w.FA.URL(), HTTPOnly: true})
 	if err != nil {
 		return nil, err
@@ -116,7 +126,9 @@ type flow struct {
 }
 
 // startFlow runs the real OAuthStart in-process and harvests the two sealings.
-func (w *World) startFlow(host, target string) (*flow, error) { return w.startFlowWith(host, target, "") }
+func (w *World) startFlow(host, target string) (*flow, error) {
+	return w.startFlowWith(host, target, "")
+}
 
 // startFlowWith starts a flow in a browser that already holds the CSRF cookie of an earlier flow (another tab).
 func (w *World) startFlowWith(host, target, held string) (*flow, error) {
@@ -386,6 +398,84 @@ func genTarget(r *rand.Rand) string {
 // TargetClasses lists the classes in a fixed order.
 var TargetClasses = []string{"plain", "query", "encoded", "dotseg", "dslash", "bslash", "enc_dslash", "dot_dslash", "userinfo", "abs_own", "abs_own_dslash", "long", "semicolon", "fragment_like", "ctl"}
 
+// runCallbackPair: two browsers finish their logins at two upstream hosts of this proxy AT THE SAME TIME and present the
+// same authorization code (the authenticator answers slowly, so the two redemptions overlap). Each is an ordinary
+// fully genuine callback cell, judged by the same rules: the session it sets is bound to ITS request's Host and the
+// browser goes back to the URL ITS flow recorded.
+func (w *World) runCallbackPair(n int, r *rand.Rand) ([]Line, error) {
+	hosts := []string{hostOwn, hostOther}
+	if r.Intn(3) != 0 {
+		// two hosts of one rewrite route: they share the upstream's provider client
+		hosts = []string{"alpha.rw.sso.test", fmt.Sprintf("tenant-%d.rw.sso.test", r.Intn(50))}
+	}
+	flows := make([]*flow, 2)
+	for i, h := range hosts {
+		f, err := w.startFlow(h, pick(r, "/secretA?x=1", "/a/b/c", "/", "/pair/"+h))
+		if err != nil {
+			return nil, err
+		}
+		flows[i] = f
+	}
+	script := map[string]world.Answer{"redeem": {Class: "ok", ExpiresIn: 3500, Token: "at-1", Refresh: "rt-1", Email: "user@allowed.test"}}
+	if w.Both {
+		script["profile"] = world.Answer{Class: "ok", Groups: []string{"eng"}}
+	}
+	w.FA.Script(script)
+	w.FA.SetDelay(time.Duration(2+r.Intn(6)) * time.Millisecond)
+	defer w.FA.SetDelay(0)
+	code := fmt.Sprintf("c0de-ok_allowed-%d", n)
+	resps := make([]*world.Resp, 2)
+	var wg sync.WaitGroup
+	order := r.Intn(2)
+	for k := 0; k < 2; k++ {
+		i := (k + order) % 2
+		wg.Add(1)
+		go func(i int) {
+			defer wg.Done()
+			q := url.Values{"state": {flows[i].state}, "code": {code}}
+			resps[i] = world.Do(w.P.Handler, world.NewReq("GET", hosts[i], "/oauth2/callback?"+q.Encode(), nil, []*http.Cookie{{Name: w.P.CSRFName, Value: flows[i].cookie}}, ""))
+		}(i)
+		if k == 0 {
+			time.Sleep(time.Duration(r.Intn(1500)) * time.Microsecond)
+		}
+	}
+	wg.Wait()
+	var out []Line
+	for i, h := range hosts {
+		resp := resps[i]
+		o := Out{Status: resp.Status, Loc: "none"}
+		bound := ""
+		if v, _ := resp.CookieAfter(w.P.CookieName, ""); v != "" {
+			o.Session = true
+			if s, err := w.P.Open(v); err == nil {
+				o.HostBound = s.AuthorizedUpstream == h
+				bound = s.AuthorizedUpstream
+			}
+		}
+		if loc := resp.Header.Get("Location"); loc != "" || resp.Status/100 == 3 {
+			o.Loc = "other"
+			if abs.SameSite(loc, h) && loc == flows[i].uri {
+				o.Loc = "A"
+			}
+		}
+		out = append(out, Line{Ev: "cell", Case: n + i, St: [2]string{"A", "s"}, Ck: [2]string{"A", "c"}, Code: "ok_allowed", Out: o, Hops: []string{},
+			Conc: map[string]interface{}{"note": "concurrent pair: two logins finishing at two upstream hosts at once with the same code", "host": h, "session_bound_to": bound,
+				"location": resp.Header.Get("Location"), "flow": flows[i]}})
+	}
+	pair := Line{Ev: "cbpair", Case: n, Hops: []string{}, Conc: map[string]interface{}{"hosts": hosts, "code": code}}
+	for _, l := range out {
+		if l.Out.Session {
+			pair.Sessions++
+		}
+	}
+	for _, c := range w.FA.Calls() {
+		if c.Endpoint == "redeem" && c.Code == code && c.CredsOK {
+			pair.Redeems++
+		}
+	}
+	return append(out, pair), nil
+}
+
 func classifyHop(loc, providerBase, own string) string {
 	if loc == "" {
 		return "none"
@@ -542,7 +632,7 @@ func Run(in, out string, seed int64, sample, reps, workers, base int, noshuffle 
 	lines := make([]Line, len(jobs))
 	var wg sync.WaitGroup
 	errs := make(chan error, workers+1)
-	var starts []Line
+	var starts, pairs []Line
 	var smu sync.Mutex
 	for wk := 0; wk < workers; wk++ {
 		wg.Add(1)
@@ -577,6 +667,18 @@ func Run(in, out string, seed int64, sample, reps, workers, base int, noshuffle 
 						smu.Unlock()
 					}
 				}
+				// concurrent pairs of genuine callbacks at two hosts
+				pr := rand.New(rand.NewSource(seed * 13))
+				for i := 0; i < 60*reps; i++ {
+					ls, err := w.runCallbackPair(20000000+2*i, pr)
+					if err != nil {
+						errs <- err
+						return
+					}
+					smu.Lock()
+					pairs = append(pairs, ls...)
+					smu.Unlock()
+				}
 				// seeded compositions of hostile fragments (more of them in thorough, where reps is larger)
 				gr := rand.New(rand.NewSource(seed * 7))
 				for i := 0; i < 40*reps; i++ {
@@ -603,7 +705,7 @@ func Run(in, out string, seed int64, sample, reps, workers, base int, noshuffle 
 	bw := bufio.NewWriter(of)
 	enc := json.NewEncoder(bw)
 	sum := &Summary{Driver: "pl", Read: len(cells), Executed: len(jobs), Distinct: len(idx), Extra: map[string]interface{}{}}
-	for _, l := range append(lines, starts...) {
+	for _, l := range append(append(lines, starts...), pairs...) {
 		enc.Encode(l)
 		sum.Lines++
 	}
@@ -614,6 +716,14 @@ func Run(in, out string, seed int64, sample, reps, workers, base int, noshuffle 
 			completed++
 		}
 	}
+	psess := 0
+	for _, p := range pairs {
+		if p.Out.Session {
+			psess++
+		}
+	}
+	sum.Extra["concurrent_pair_callbacks"] = len(pairs)
+	sum.Extra["concurrent_pair_sessions"] = psess
 	sum.Extra["starts"] = len(starts)
 	sum.Extra["starts_completed_login"] = completed
 	return sum, nil
